@@ -163,12 +163,9 @@ fn case<T: Obs>(c: &mut Ctx, x: T, dur: TimeDelta, tag: &str) {
     let w = wall_line(&x);
     let leap = x.subsec() >= 1_000_000_000;
     let in_win = (I64_MIN..=I64_MAX).contains(&w);
-    // Props/C17.lean `leap_stamp_refused_although_it_fits`: with a leap-second field on the wall-clock
-    // second -9223372038 the line position fits i64 but `timestamp_nanos_opt` is None
-    let refused_corner = leap && in_win && x.utc_secs() as i128 + x.off() as i128 == -9_223_372_038;
     // the crate's own stamp must be the wall-clock line position (relation taken from C02)
     if let Some(cs) = x.crate_stamp() {
-        let mine = if in_win && !refused_corner { Some(w as i64) } else { None };
+        let mine = if in_win { Some(w as i64) } else { None };
         if cs != mine {
             c.fail(
                 "timestamp_nanos_opt of the wall-clock reading differs from (secs+offset)*10^9+subsec",
@@ -222,21 +219,7 @@ fn case<T: Obs>(c: &mut Ctx, x: T, dur: TimeDelta, tag: &str) {
                         _ => "err:other",
                     }
                 ));
-                if refused_corner && e == RoundingError::TimestampExceedsLimit && expect.is_none() {
-                    // the second class of leap-second deviations (theorems `zoned_result_leap`,
-                    // `leap_stamp_refused_although_it_fits`); raised only on that one wall-clock second
-                    c.count("leap:stamp refused although the line position fits i64");
-                    c.fail(
-                        "leap-second input: TimestampExceedsLimit although the wall-clock timestamp fits in 64 bits",
-                        &format!(
-                            "{:?}.duration_{}({} ns) = Err(TimestampExceedsLimit): wall-clock stamp {} >= i64::MIN",
-                            x,
-                            if nm == "up" { "round_up" } else { nm },
-                            span,
-                            w
-                        ),
-                    );
-                } else if expect != Some(e) {
+                if expect != Some(e) {
                     c.fail(&what("failure reported although/other than the property says"), &format!("{ctxs}: got {:?}, property says {:?}", e, expect));
                 }
             }
@@ -259,7 +242,7 @@ fn case<T: Obs>(c: &mut Ctx, x: T, dur: TimeDelta, tag: &str) {
                 if r.off() != x.off() {
                     c.fail(&what("offset changed"), &ctxs);
                 }
-                if span <= 0 || span > I64_MAX || !in_win || refused_corner {
+                if span <= 0 || span > I64_MAX || !in_win {
                     c.fail(&what("Ok although the property demands an error"), &format!("{ctxs} -> {:?}", r));
                     continue;
                 }
@@ -453,7 +436,15 @@ fn gen_stamp(c: &mut Ctx, span: i64) -> i128 {
     v.clamp(I64_MIN, I64_MAX)
 }
 
-fn subsec_case<T: Copy + PartialEq + std::fmt::Debug + SubsecRound + Timelike>(c: &mut Ctx, x: T, digits: u16, secs_of: impl Fn(&T) -> i64, modulus: i64) {
+fn subsec_case<T: Copy + PartialEq + std::fmt::Debug + SubsecRound + Timelike>(
+    c: &mut Ctx,
+    x: T,
+    digits: u16,
+    secs_of: impl Fn(&T) -> i64,
+    modulus: i64,
+    vop: &str,
+    enc: impl Fn(&T) -> String,
+) {
     let frac = x.nanosecond() as i128;
     let span: i128 = 10i128.pow(9 - (digits.min(9) as u32));
     let leap = frac >= NS;
@@ -463,8 +454,23 @@ fn subsec_case<T: Copy + PartialEq + std::fmt::Debug + SubsecRound + Timelike>(c
         let res = guard(|| if round { x.round_subsecs(digits) } else { x.trunc_subsecs(digits) });
         let line = format!("rd.{} {} {}", nm, frac, digits);
         let ctxs = format!("{:?} to {} digits", x, digits);
+        // value level: the call on the value itself, reply = the returned value (or the documented
+        // panic of `+` at the very end of the range)
+        c.op(
+            &format!("{}.{} {} {}", vop, nm, enc(&x), digits),
+            &match &res {
+                Err(()) => "panic".to_string(),
+                Ok(r) => enc(r),
+            },
+        );
         let r = match res {
             Err(()) => {
+                if vop != "rd.t" && x.nanosecond() as i128 + (span - frac.rem_euclid(span)) >= base + NS && round {
+                    // Props/C17.lean `naive_subsecs_spec`: exactly when the carried second lies after
+                    // NaiveDateTime::MAX; the model must say `panic` too (line above)
+                    c.count(&format!("{nm}:panic at the end of the range (documented `+` overflow)"));
+                    continue;
+                }
                 c.op(&line, "panic");
                 c.fail(&format!("{nm}: panicked"), &ctxs);
                 continue;
@@ -701,7 +707,8 @@ pub fn run(c: &mut Ctx) {
     }
 
     // the wall-clock second -9223372038 with a leap-second field (reachable at offsets = 43 mod 60):
-    // line position >= i64::MIN for fields >= 1_145_224_192, stamp refused by the crate
+    // line position >= i64::MIN for fields >= 1_145_224_192; `timestamp_nanos_opt` refused these
+    // before fix 32de816 (the negative-timestamp workaround overflowed): regression cases
     {
         let n_corner = c.n(60, 600);
         for i in 0..n_corner {
@@ -716,14 +723,10 @@ pub fn run(c: &mut Ctx) {
                 case(c, u.with_timezone(&FixedOffset::east_opt(off).unwrap()), TimeDelta::nanoseconds(span), "leap-corner");
             }
         }
-        // the kernel-checked instance `leap_stamp_refused_although_it_fits`
+        // the kernel-checked instance of Props/C17.lean (example after `zoned_result_leap`)
         let u = DateTime::<Utc>::from_timestamp(-9_223_372_081, 1_500_000_000).unwrap();
         let f = u.with_timezone(&FixedOffset::east_opt(43).unwrap());
-        if guard(|| f.duration_trunc(TimeDelta::seconds(1))) == Ok(Err(RoundingError::TimestampExceedsLimit)) {
-            c.count("leap:example 1677-09-21T00:11:60.5Z at +00:00:43 .duration_trunc(1 s) = Err(TimestampExceedsLimit) (reproduced)");
-        } else {
-            c.count("leap:example 1677-09-21T00:11:60.5Z at +00:00:43 is no longer refused");
-        }
+        c.count("leap:1677-09-21T00:11:60.5Z at +00:00:43 (wall-clock stamp just inside the window)");
         case(c, f, TimeDelta::seconds(1), "leap-corner");
     }
 
@@ -780,14 +783,14 @@ pub fn run(c: &mut Ctx) {
             None => return,
         };
         match which % 3 {
-            0 => subsec_case(c, t, digits, |x| x.num_seconds_from_midnight() as i64, 86_400),
-            1 => subsec_case(c, date.and_time(t), digits, |x| x.and_utc().timestamp(), i64::MAX),
+            0 => subsec_case(c, t, digits, |x| x.num_seconds_from_midnight() as i64, 86_400, "rd.t", |x| format!("{} {}", x.num_seconds_from_midnight(), x.nanosecond())),
+            1 => subsec_case(c, date.and_time(t), digits, |x| x.and_utc().timestamp(), i64::MAX, "rd.n", enc_naive),
             _ => {
                 let off = gen_off(c);
                 let off = if leap { off / 60 * 60 } else { off };
                 let fo = FixedOffset::east_opt(off).unwrap();
                 let dt = fo.from_utc_datetime(&date.and_time(t));
-                subsec_case(c, dt, digits, |x| x.timestamp(), i64::MAX)
+                subsec_case(c, dt, digits, |x| x.timestamp(), i64::MAX, "rd.z", |x: &DateTime<FixedOffset>| x.enc())
             }
         }
     };
@@ -835,7 +838,20 @@ pub fn run(c: &mut Ctx) {
         let field = |v: i128| if v == base + NS { "0 1".to_string() } else { format!("{} 0", v) };
         c.op(&format!("rd.spec.sub {} {}", frac, digits), &format!("{} {}", field(t), field(r)));
     }
-    // documented panic of `Add` at the very end of the range: recorded, not judged here
+    // the last second of the range (Props/C17.lean `naive_subsecs_spec`, `zoned_subsecs_spec`): `+`
+    // panics exactly when the field rounds up into the second after NaiveDateTime::MAX
+    for frac in [0u32, 1, 499_999_999, 500_000_000, 949_999_999, 950_000_000, 999_999_999] {
+        for digits in [0u16, 1, 3, 8, 9] {
+            let t = NaiveTime::from_hms_nano_opt(23, 59, 59, frac).unwrap();
+            let x = NaiveDate::MAX.and_time(t);
+            subsec_case(c, x, digits, |x| x.and_utc().timestamp(), i64::MAX, "rd.n", enc_naive);
+            let off = *c.rng.pick(&OFFS);
+            let z = FixedOffset::east_opt(off).unwrap().from_utc_datetime(&x);
+            subsec_case(c, z, digits, |x| x.timestamp(), i64::MAX, "rd.z", |x: &DateTime<FixedOffset>| x.enc());
+            let y = NaiveDate::MIN.and_time(NaiveTime::from_hms_nano_opt(0, 0, 0, frac).unwrap());
+            subsec_case(c, y, digits, |x| x.and_utc().timestamp(), i64::MAX, "rd.n", enc_naive);
+        }
+    }
     if guard(|| NaiveDateTime::MAX.round_subsecs(0)).is_err() {
         c.count("obs:NaiveDateTime::MAX.round_subsecs(0) panics (Add overflow at the end of the range)");
     }
